@@ -329,6 +329,24 @@ def dew_converged(s, op, T, P, w):
     return r <= RES_TOL and d <= RES_TOL
 
 
+def guess_tag(s, P):
+    """Classification of a failing dew-temperature case: did DewPoint._Tx_ideal (ideal-solution initial guess,
+    a bracketing solve over the hull of all Psat ranges with maxiter=50 and no iteration check) return something
+    more than 1 K away from the ideal dew temperature computed here by bisection inside the box?"""
+    zn = s.z / s.z.sum()
+    f = lambda T: sum(zn[i] * P / float(s.chems[i].Psat(T)) for i in s.pos) - 1.0
+    lo, hi = s.Tlo, s.Thi
+    for _ in range(60):
+        mid = 0.5 * (lo + hi)
+        if f(mid) > 0: lo = mid
+        else: hi = mid
+    try:
+        guess = float(s.DP._Tx_ideal(zn * P)[0])
+    except Exception:
+        return 'guess=err'
+    return 'guess=bad' if abs(guess - lo) > 1.0 else 'guess=ok'
+
+
 def check_point(ctx, s, op, T, P, w, site):
     """Defining equation, normalisation, non-negativity for one result."""
     region = s.region(is_dew(op))
@@ -347,6 +365,7 @@ def check_point(ctx, s, op, T, P, w, site):
     if res <= RES_TOL: ctx.metric_max(f'{tag}:residual(passing)', res)
     else: ctx.metric_max(f'{tag}:residual(failing)', res)
     if not res <= RES_TOL:
+        if op == 'dewT': region += ',' + guess_tag(s, P)
         ctx.fail(f'{site}|{region}|residual', f'sum of implied fractions = {1 + res!r} or {1 - res!r} at T={T!r} P={P!r} '
                                               f'{s.names} z={s.z.tolist()}')
     ctx.metric_max(f'{tag}:fraction_dev', dev)
